@@ -70,6 +70,8 @@ class Lock:
 
 # ----------------------------------------------------------------- coq side
 def coq_makefile():
+    import gen_coqproject
+    gen_coqproject.main()
     mk = os.path.join(COQ, "Makefile")
     proj = os.path.join(COQ, "_CoqProject")
     if not os.path.exists(mk) or os.path.getmtime(mk) < os.path.getmtime(proj):
